@@ -291,7 +291,11 @@ func runSr(id int, c StlCase, keep string) srLine {
 	if ln.Gen == nil {
 		ln.Gen = []GRec{}
 	}
-	b := EncodeStl(recs, fmt.Sprintf("verif case %d", id))
+	title := fmt.Sprintf("verif case %d", id)
+	if id%3 == 0 { // a binary file whose header happens to start like an ASCII one is still binary STL
+		title = "solid " + title
+	}
+	b := EncodeStl(recs, title)
 	if keep != "" {
 		_ = os.WriteFile(fmt.Sprintf("%s/case%d.stl", keep, id), b, 0o644)
 	}
